@@ -178,12 +178,25 @@ def _attempt(row, base):
         return ("posterior", e, p)
     if fs is not None and not any(k.endswith("_final.state") for k in fs.files):
         return ("post", [("post:no-final-checkpoint", f"save_every={row['save_every']} but no final checkpoint was written: {sorted(fs.files)}")], p)
+    if fs is not None:
+        # a valid configuration must also run to completion when a FRESH sampler resumes one of its checkpoints
+        cks = sorted((k for k in fs.files if k.endswith(".state") and not k.endswith("_final.state")), key=lambda s_: int(s_.rsplit("_", 1)[1].split(".")[0]))
+        for path in ([cks[0], cks[len(cks) // 2], cks[-1]] if cks else []):
+            rcfg = dict(cfg)
+            rcfg.pop("save_every", None)
+            q = Probe(rcfg, base=base + 17, fs=fs, iter_offset=int(path.rsplit("_", 1)[1].split(".")[0]))
+            q.run(resume_state_path=path)
+            if q.exc is not None:
+                return ("resume", q.exc, q)
+            errs = terminal_errors(q)
+            if errs:
+                return ("resume-post", errs, q)
     return None
 
 
 def _sig(fail):
     stage, what, _ = fail
-    if stage == "post":
+    if stage in ("post", "resume-post"):
         return f"{stage}:{what[0][0]}"
     return f"{stage}:{type(what).__name__}"
 
